@@ -65,9 +65,13 @@ def check_fab_writes(ctx, prefix, res, wpath, comps_ok, hdr_fab_ok=None, offsets
             vals = [e.value for e in wr]
             ok = len(vals) == 2 and isinstance(vals[0], HdrV) and vals[0].kind == "bytes" and \
                 isinstance(vals[1], BytesV) and vals[1].kind == "data"
-            ctx.check(ok, f"{prefix}.G6", site, "each FAB is written as one bytes header followed by one data block",
-                      f"per-FAB writes are {[v.text()[:60] for v in vals]} (needs header bytes, then data bytes)",
-                      key="seq:" + key, where=loc(fi, wr[0].node))
+            # a written value the interpreter cannot classify (an array handed to write() through the buffer protocol,
+            # a memoryview ...) is outside the rule's domain: undecided, not a wrong sequence
+            decidable = all(isinstance(v, (HdrV, BytesV)) for v in vals)
+            ctx.decide(ok, decidable, f"{prefix}.G6", site, "each FAB is written as one bytes header followed by one data block",
+                       f"per-FAB writes are {[v.text()[:60] for v in vals]} (needs header bytes, then data bytes)",
+                       key="seq:" + key, where=loc(fi, wr[0].node),
+                       why_unknown="a written value is not bytes the interpreter can account for")
             if not ok:
                 continue
             hdr, data = vals
